@@ -18,7 +18,7 @@ SHARD_JOBS = 14
 RULE = (
     "histories of create_type (parents: built-in, user, short names, final, unknown, ambiguous; duplicate user and predefined "
     "names), create_feature and instantiation applied to a fresh TypeSystem(); quick: every history of length <= 2 over a "
-    "29-operation alphabet on the pool {a.A, a.B, b.A}, a seeded sample of the length-3/4 histories, and seeded random trees "
+    "32-operation alphabet on the pool {a.A, a.B, b.A}, a seeded sample of the length-3/4 histories, and seeded random trees "
     "(depth <= 8, fan-out <= 3, 6-24 types) with refused operations mixed in; thorough: larger samples. On the final state all "
     "ordered pairs of the queried names go through ts.subsumes, Type.subsumes and is_instance_of; supertype, children, "
     "descendants, is_primitive per name; get_type/contains_type over full, short, unknown and ambiguous strings; object "
@@ -56,7 +56,10 @@ def cf(dom, n, r, e=None, m=None, d=None):
     return {"op": "cf", "dom": dom, "n": n, "r": r, "e": e, "m": m, "d": d}
 
 
-ALPHABET = [ct(x, p) for x in POOL for p in PARENTS] + [ct("uima.cas.Integer", T.TOP), cf("a.A", "f", "uima.cas.Integer")]
+ALPHABET = [ct(x, p) for x in POOL for p in PARENTS] + [
+    ct("uima.cas.Integer", T.TOP), cf("a.A", "f", "uima.cas.Integer"),
+    # references to user types from features: range, and element type of FSArray / FSList (identity after an XML round trip)
+    cf("a.B", "arr", "uima.cas.FSArray", e="a.A"), cf("a.A", "lst", "uima.cas.FSList", e="a.B"), cf("a.A", "ref", "a.B")]
 
 
 def _mk(ops, rng=None, extra_names=(), full=False):
@@ -85,7 +88,9 @@ def _mk(ops, rng=None, extra_names=(), full=False):
             pairs.append([rng.choice(lookups), rng.choice(lookups)])
     else:
         pairs = [["Annotation", "A"], ["a.A", "B"], ["TOP", "Nope"], ["B", "a.B"]]
-    return {"ops": ops, "names": names, "lookups": lookups, "pairs": pairs, "xml": bool(users) and (len(ops) % 3 == 0)}
+    refs_user = any(op["op"] == "cf" and (op.get("e") in users or op["r"] in users or T.short(op["r"]) in [T.short(u) for u in users])
+                    for op in ops)
+    return {"ops": ops, "names": names, "lookups": lookups, "pairs": pairs, "xml": bool(users) and (refs_user or len(ops) % 3 == 0)}
 
 
 def _random_history(rng, big):
@@ -129,11 +134,13 @@ def _random_history(rng, big):
             ops.append(ct("z.N" + str(i), rng.choice(["no.Such", "Nope", "uima.cas.Nope", "T9"])))           # unknown parent
         elif r < 0.26:
             ops.append(ct(rng.choice(T.BUILTIN_NAMES), rng.choice(builtin_parents)))         # predefined name
-        elif r < 0.36 and users:
-            ops.append(cf(rng.choice(users + [T.short(rng.choice(users))]), rng.choice(["f", "g", "self"]),
-                          rng.choice(["uima.cas.Integer", "uima.cas.String", "uima.cas.FSArray", "Nope"] + users[:2]),
-                          rng.choice([None, None, "uima.tcas.Annotation"]), rng.choice([None, None, True])))
-        elif r < 0.40 and users:
+        elif r < 0.42 and users:
+            r_ = rng.choice(["uima.cas.Integer", "uima.cas.String", "uima.cas.FSArray", "uima.cas.FSArray", "uima.cas.FSList", "Nope"]
+                            + users[:2])
+            e_ = rng.choice([None, "uima.tcas.Annotation"] + users[-2:] + users[:1]) if r_ in ("uima.cas.FSArray", "uima.cas.FSList") else None
+            ops.append(cf(rng.choice(users + [T.short(rng.choice(users))]), rng.choice(["f", "g", "h", "self"]), r_, e_,
+                          rng.choice([None, None, True])))
+        elif r < 0.46 and users:
             ops.append({"op": "inst", "t": rng.choice(users)})
     extra = [rng.choice(T.BUILTIN_NAMES)]
     deep = sorted(users, key=lambda u: -depth[u])[:4]
@@ -152,11 +159,11 @@ def generate(rng, tier):
         for L in (1, 2):
             for k, h in enumerate(itertools.product(ALPHABET, repeat=L)):
                 yield _mk([dict(o) for o in h], full=(k % 100 == 7))
-        n_s = {"quick": 200, "thorough": 6000}[tier]
+        n_s = {"quick": 140, "thorough": 6000}[tier]
         for k in range(n_s):
             L = 3 if k % 2 == 0 else 4
             yield _mk([dict(rng.choice(ALPHABET)) for _ in range(L)], rng, full=(k % 100 == 7))
-    n_r = {"quick": 200, "thorough": 5000, "search": 3000}[tier]
+    n_r = {"quick": 160, "thorough": 5000, "search": 3000}[tier]
     for k in range(n_r):
         sc = _random_history(rng, big=(k % 3 == 0))
         if k % 100 == 7:
